@@ -1,6 +1,7 @@
 package main
 
 import (
+	"fmt"
 	"sync"
 
 	"gonum.org/v1/gonum/mat"
@@ -16,10 +17,10 @@ var (
 	mVecMulElem = &method{name: "VecDense.MulElemVec", pos: ab, call: func(r any, o []mat.Matrix, _ *caseSpec) { vd(r).MulElemVec(vv(o[0]), vv(o[1])) }}
 	mVecDivElem = &method{name: "VecDense.DivElemVec", pos: ab, call: func(r any, o []mat.Matrix, _ *caseSpec) { vd(r).DivElemVec(vv(o[0]), vv(o[1])) }}
 	mVecScale   = &method{name: "VecDense.ScaleVec", pos: aOnly, call: func(r any, o []mat.Matrix, cs *caseSpec) { vd(r).ScaleVec(cs.alpha, vv(o[0])) }}
-	mVecCopy    = &method{name: "VecDense.CopyVec", pos: aOnly, copyLike: true, call: func(r any, o []mat.Matrix, _ *caseSpec) { vd(r).CopyVec(vv(o[0])) }}
+	mVecCopy    = &method{name: "VecDense.CopyVec", pos: aOnly, copyLike: true, call: func(r any, o []mat.Matrix, cs *caseSpec) { cs.status = fmt.Sprint(vd(r).CopyVec(vv(o[0]))) }}
 	mVecAddSc   = &method{name: "VecDense.AddScaledVec", pos: ab, call: func(r any, o []mat.Matrix, cs *caseSpec) { vd(r).AddScaledVec(vv(o[0]), cs.alpha, vv(o[1])) }}
 	mVecMulVec  = &method{name: "VecDense.MulVec", pos: ab, call: func(r any, o []mat.Matrix, _ *caseSpec) { vd(r).MulVec(o[0], vv(o[1])) }}
-	mVecSolve   = &method{name: "VecDense.SolveVec", pos: ab, call: func(r any, o []mat.Matrix, _ *caseSpec) { _ = vd(r).SolveVec(o[0], vv(o[1])) }}
+	mVecSolve   = &method{name: "VecDense.SolveVec", pos: ab, errOp: 1, call: func(r any, o []mat.Matrix, cs *caseSpec) { cs.status = errClass(vd(r).SolveVec(o[0], vv(o[1]))) }}
 )
 
 const (
